@@ -721,6 +721,7 @@ def ensemble_case(draw, tier):
         "m1": i1, "m2": draw(instrument_st(shape, m2)),
         "povm": draw(st.one_of(st.none(), gen.povm_case((shape,), (2, 3)))),
         "flat_call": draw(st.booleans()),
+        "with_product": draw(st.integers(0, 2)) == 0,
     }
     return c
 
@@ -874,6 +875,37 @@ def check_ensembles(case, ctx):
                     ctx.equal(tuple(int(s) for s in cond.shape), sh2, "ens2:conditional_shape")
                     if tuple(int(s) for s in cond.shape) == sh2:
                         ctx.close(np.asarray(cond.ps, dtype=float), joint[i] / p1[i], (jt + alg) / p1[i] * 4, "ens2:conditional_is_second_given_first")
+    # ---- independent parties: the ensemble of one measurement on this system (x) the ensemble of two measurements on a
+    #      second system; p(i; k, j) = p1[i] * joint[k, j], states and probabilities in the row-major layout of the shape
+    if case.get("with_product") and d <= 3 and m1 * m1 * m2 <= 48:
+        from quara.objects.operators import tensor_product
+
+        names_b = [10 + k for k in range(len(gen.SHAPES[shape]))]
+        c_sys_b = build.c_sys_for(shape, names=names_b)
+        state_b = build.make(c_sys_b, "state", np.real(rm.vec(basis, rho)))
+        ens_b = compose_qoperations(_quara_mprocess(c_sys_b, basis, ks2, sh2), _quara_mprocess(c_sys_b, basis, ks1, sh1), state_b)
+        if type(ens_b) is StateEnsemble and not ens_b.prob_dist.is_zero_dist and not pd1.is_zero_dist:
+            prod = tensor_product(ens1, ens_b)
+            ctx.check(type(prod) is StateEnsemble, "ens_product:type", f"{type(prod)}")
+            if type(prod) is StateEnsemble and _valid_dist_obj(prod.prob_dist, ctx, "ens_product"):
+                pdp = prod.prob_dist
+                shp = sh1 + sh1 + sh2
+                ctx.equal(tuple(int(v) for v in pdp.shape), shp, "ens_product:shape_is_left_then_right")
+                ref_p = np.multiply.outer(np.asarray(pd1.ps, dtype=float), np.asarray(ens_b.prob_dist.ps, dtype=float).reshape(m1, m2))
+                if tuple(int(v) for v in pdp.shape) == shp and len(prod.states) == m1 * m1 * m2:
+                    tp = ptol(ref_p) + alg
+                    ctx.close(np.asarray(pdp.ps, dtype=float), ref_p.reshape(-1), tp, "ens_product:probabilities_row_major")
+                    for i in range(m1):
+                        for k in range(m1):
+                            for j in range(m2):
+                                multi = tuple(multis1[i]) + tuple(multis1[k]) + tuple(multis2[j])
+                                serial = (i * m1 + k) * m2 + j
+                                ctx.close(pdp[multi], ref_p[i, k, j], tp, "ens_product:prob_by_tuple", f"outcome {multi}")
+                                ctx.check(prod.state(multi) is prod.states[serial], "ens_product:state_tuple_is_row_major_entry", f"outcome {multi}")
+                                want = tensor_product(ens1.states[i], ens_b.states[k * m2 + j])
+                                ctx.close(np.asarray(prod.states[serial].vec, dtype=float), np.asarray(want.vec, dtype=float), 1e-10,
+                                          "ens_product:state_is_product_of_the_members", f"outcome {multi}")
+                    ctx.label("ensemble-product")
     # ---- POVM on the ensemble: p(i, j, k) = Tr E_k B_j A_i rho
     if case.get("povm") is not None:
         es = gen.povm_matrices(case["povm"])
